@@ -61,10 +61,18 @@ impl Model {
     /// strict descendants, parents before children (BTreeMap order guarantees prefix first)
     pub fn descendants(&self, p: &str) -> Vec<String> {
         let pre = format!("{}/", p);
-        self.t.keys().filter(|k| k.starts_with(&pre)).cloned().collect()
+        self.t
+            .keys()
+            .filter(|k| k.starts_with(&pre))
+            .cloned()
+            .collect()
     }
     pub fn well_formed(&self) -> bool {
-        self.is_dir("") && self.t.keys().all(|k| k.is_empty() || self.is_dir(&parent_of(k)))
+        self.is_dir("")
+            && self
+                .t
+                .keys()
+                .all(|k| k.is_empty() || self.is_dir(&parent_of(k)))
     }
     pub fn insert_tree(&mut self, entries: &[(String, Node)]) {
         for (p, n) in entries {
@@ -76,7 +84,11 @@ impl Model {
     pub fn in_typed_domain(&self, op: &Op) -> bool {
         let p = op.path();
         match op {
-            Op::CreateFile(..) | Op::Append(..) | Op::RemoveFile(_) | Op::RemoveDir(_) | Op::RemoveDirAll(_)
+            Op::CreateFile(..)
+            | Op::Append(..)
+            | Op::RemoveFile(_)
+            | Op::RemoveDir(_)
+            | Op::RemoveDirAll(_)
                 if p.is_empty() =>
             {
                 false
@@ -190,7 +202,9 @@ impl Model {
                 let is_move = matches!(op, Op::MoveFile(..));
                 if m.exists(q) {
                     fail(true, vec![]) // existing destination: refused without side effects
-                } else if let (Some(Node::File(b)), true) = (m.get(&p).cloned(), parent_is_dir(&m, q)) {
+                } else if let (Some(Node::File(b)), true) =
+                    (m.get(&p).cloned(), parent_is_dir(&m, q))
+                {
                     m.t.insert(q.clone(), Node::File(b));
                     if is_move {
                         m.t.remove(&p);
@@ -219,7 +233,11 @@ impl Model {
                         }
                         m.t.remove(&p);
                     }
-                    Expect::Ok(if is_move { None } else { Some(desc.len() as u64) })
+                    Expect::Ok(if is_move {
+                        None
+                    } else {
+                        Some(desc.len() as u64)
+                    })
                 } else {
                     fail(false, vec![])
                 }
